@@ -35,6 +35,7 @@ type AttemptPlan struct {
 	EndWithEOF     bool // clean attempts end by the master's EOF packet instead of a cancel
 	FreshStreamer  bool // replica crash+restart: a new Streamer starts from the last accepted label
 	NoCancelCtx    bool // the caller passes context.Background(): nothing can cancel the attempt, it ends by its cause (or by the master closing the connection)
+	RewindTo       bool // before this attempt the application re-points the same Streamer to one of the end labels delivered so far (SetBinlogPosition)
 	SkipRefused    bool // the application skips the transaction its handler refused in the previous attempt: SetBinlogPosition(refused.NextPosition)
 	HandshakeCut   int  // handshake-fin: bytes of the greeting that still arrive
 	ErrorCalls     int  // how many times Error() is called after Stream returned (>=1)
@@ -118,6 +119,7 @@ type Run struct {
 	parkedH       *HandlerCall
 	parkedM       *MapperCall
 	calls         []*HandlerCall
+	Rewound       []rewind
 	mapperCalls   []*MapperCall
 	master        *simMaster
 	conn          *simConn
@@ -502,12 +504,30 @@ func (r *Run) controller() {
 				}
 			}
 		}
+		if plan.RewindTo && i > 0 {
+			var labels []Pos
+			for _, c := range r.calls {
+				if c.Snap != nil {
+					labels = append(labels, c.Snap.Next)
+				}
+			}
+			if len(labels) > 0 {
+				l := labels[r.tape.S("resume").N(len(labels))]
+				r.streamer.SetBinlogPosition(gobinlog.Position{Filename: l.File, Offset: l.Off})
+				r.Rewound = append(r.Rewound, rewind{Attempt: i, Label: l})
+			}
+		}
 		ok := r.runAttempt(i, plan)
 		if !ok {
 			break
 		}
 	}
 	r.finalCleanup()
+}
+
+type rewind struct {
+	Attempt int
+	Label   Pos
 }
 
 // launch runs f on a fresh goroutine of the bubble and returns a flag struct.
